@@ -45,9 +45,8 @@ LEVEL_TEXT = ("Theorems (Properties/C06.v, all closed under the global context).
               "byte equality of the final report is proved only through the totals (not through the renderer); which erroneous "
               "directive an error message names (stderr) is outside.")
 LEVEL_NOTE = ("Trusted: kernel, extraction, harness; Go runtime sampled. Outside the rational model: float64 summation order in "
-              "`portfolio weights`/`returns`; `portfolio weights` without -a sorts siblings by weight with sort.Slice and no "
-              "tie-break (lib/reports/weights/weights.go SortWeighted) -- equal weights come out in map order; not exercised by "
-              "this check's commands (see findings/C06-weights-ties.md).")
+              "`portfolio weights`/`returns` (the commands are run repeatedly by this check -- the tie-break defect of SortWeighted was "
+              "found that way and fixed in 68dd52f -- but their float arithmetic has no theorem).")
 
 
 def plan(tier, seed):
